@@ -561,7 +561,41 @@ def apply_contract(E, c, fn, args, kwargs, node):
                 E.ghost[k] = v
 
 
+def _undeclared_params_defaulted(E, c, fn, env, site):
+    """A contract is verified with every parameter it does not declare at its default value (verify() above): that is an
+    implicit precondition.  A call that hands another value to such a parameter is outside the contract: obligation at
+    the call site; and what the callee does with a mutable object received that way is unknown (havoc)."""
+    a = fn.node.args
+    pos = [x.arg for x in a.posonlyargs + a.args]
+    nd = len(fn.defaults)
+    for i, nm in enumerate(pos + [x.arg for x in a.kwonlyargs]):
+        if not isinstance(c.params.get(nm, Default()), Default):
+            continue
+        if nm in pos and i - (len(pos) - nd) >= 0:
+            dflt = fn.defaults[i - (len(pos) - nd)]
+        elif nm in fn.kwdefaults:
+            dflt = fn.kwdefaults[nm]
+        else:
+            continue
+        got = env.locals.get(nm)
+        if got is dflt:
+            continue
+        try:
+            same = ops.identical(E, got, dflt)
+        except Unsupported:
+            same = False
+        if same is True:
+            continue
+        cond = same if not isinstance(same, bool) else z3.BoolVal(same)
+        E.oblige('%s.undeclared_parameter_%s_has_its_default' % (site, nm), cond, 'coverage',
+                 'the contract of %s is verified with parameter %s at its default value; this call passes another value, so '
+                 'the contract does not cover it' % (c.func, nm))
+        if isinstance(got, VRef) and isinstance(E.heap[got.addr], (HList, HDict)):
+            E.havoc_heap(got)
+
+
 def _apply_contract(E, c, fn, args, kwargs, node, env, site):
+    _undeclared_params_defaulted(E, c, fn, env, site)
     for i, r in enumerate(c.requires):
         v = E.eval_spec(r, env)
         E.oblige('%s.requires%d' % (site, i), E.as_z3_bool(v), 'call_pre', r)
